@@ -42,6 +42,8 @@ pub enum Fault {
     Crash { at: CrashPoint, second: Option<(usize, Option<usize>)>, cont: Vec<Op> },
     /// damage the image left by the (cleanly dropped) history, then open
     Damage { ops: Vec<DamageOp> },
+    /// as `Damage`, then keep using the log that opened (`cont`, last op a restart) and look again
+    DamageThen { ops: Vec<DamageOp>, cont: Vec<Op> },
     /// fail the `call`-th fs call of the final `open`
     IoErr {
         call: usize,
@@ -103,7 +105,7 @@ pub fn evaluate(prop: &str, case: &Case, fault: &Fault) -> Vec<Failure> {
             d.failures.into_iter().filter(|f| f.prop == prop).collect()
         }
         Fault::Crash { .. } => crate::crash::evaluate_crash(prop, case, fault),
-        Fault::Damage { .. } | Fault::RawImage { .. } => crate::damage::evaluate_damage(prop, case, fault),
+        Fault::Damage { .. } | Fault::DamageThen { .. } | Fault::RawImage { .. } => crate::damage::evaluate_damage(prop, case, fault),
         Fault::IoErr { .. } => crate::ioerr::evaluate_ioerr(prop, case, fault),
         Fault::Policies { .. } | Fault::Project { .. } | Fault::Insert { .. } => crate::meta::evaluate_meta(prop, case, fault),
     }
